@@ -6,7 +6,7 @@ import vlib
 from pure_common import run_pure, replay as pure_replay
 import http_common
 
-PROPS = ["KrillModel.Props.C16"]
+PROPS = ["KrillModel.Props.C16", "KrillModel.Props.C16Src"]
 RELEVANT = {"no_panic", "validated_arith_total", "covers_total"}
 RULE = ("stream pure, set c16: (a) EXHAUSTIVE over the finite domain family x prefix length x max length (None, 0..255): "
         "max_length_valid / effective_max_length / set_explicit_max_length and nr_of_specific_prefixes under catch_unwind, "
@@ -16,10 +16,36 @@ RULE = ("stream pure, set c16: (a) EXHAUSTIVE over the finite domain family x pr
         "sets), RISwhois text, mutated third-party CMS samples, CMS *validly signed by the registered identity* around hostile XML "
         "(RFC 6492 / RFC 8181), random bytes - each decoded and, where a pure follow-up exists, processed (process_updates, analysis "
         "dry run, verify_rfc6492, validate + as_query) under catch_unwind; decoded ROA deltas are also compared with the model's "
-        "accept/refuse. distinct_nontrivial = distinct (op kind, outcome class) pairs")
+        "accept/refuse; (c) `strfn`: a registry of krill's own string-taking helpers on request paths (seems_global_uri raw and "
+        "through uri::Rsync/uri::Https, RoaAggregateKey / RoaPayload / JSON map key / TypedPrefix / AsNumber / Announcement / "
+        "KrillVersion / ObjectName / handle / class name / token / permission parsers) under catch_unwind on every host shape x port "
+        "shape (empty, only ':', trailing ':', leading ':', several colons, '[' forms, IPv4/IPv6 literals with and without port, "
+        "multi-byte characters around the split points, very long) plus 4000 generated strings; result kind compared with the "
+        "checked model where one exists (seemsGlobalUri, roaAggregateKeyFromStr). distinct_nontrivial = distinct (op kind, outcome "
+        "class) pairs")
+
+
+def census_diff():
+    """Rows of the generated census without a review row of the same (function, kind, count) - for the report."""
+    import re
+    gen = (vlib.LEAN / "KrillModel/Generated/PanicSites.lean").read_text()
+    rev = (vlib.LEAN / "KrillModel/Input/PanicReview.lean").read_text()
+    g = set(re.findall(r'^\s*\("([^"]+)", "([^"]+)", (\d+)\)', gen, re.M))
+    r = set(re.findall(r'^\s*\("([^"]+)", "([^"]+)", (\d+),', rev, re.M))
+    return sorted(g - r)
 
 
 def check(ctx):
+    # panic-site census of krill's own code, regenerated from /repo/src (theorem all_panic_sites_reviewed over it)
+    vlib.translate(ctx, [("panic_sites", "PanicSites.lean")])
+    try:
+        d = census_diff()
+        if d:
+            ctx.notes.append("panic-site census rows without a review row of the same count (Input/PanicReview.lean): "
+                             + "; ".join(f"{f} {k} x{n}" for f, k, n in d[:20]))
+            ctx.log("census rows not reviewed:", d[:20])
+    except OSError as e:
+        ctx.notes.append(f"census diff not available: {e}")
     vlib.prove(ctx, PROPS)
     found = False
     if vlib.build_harness(ctx, ["pure"]):
@@ -34,6 +60,10 @@ def check(ctx):
         ctx.failed_obligations.append("harness-build-http")
     vlib.obligations_broken(ctx, found)
     ctx.assumptions += [
+        "the panic-site census (translator panic_sites, theorem all_panic_sites_reviewed) counts index/slice, unwrap, expect, panic-family "
+        "macros, integer division, shifts and process exits per function of krill's own code outside tests/CLI/upgrades; every row is "
+        "classified by hand in Input/PanicReview.lean (the reasons are an audit, not a proof); arithmetic overflow sites are not in the "
+        "census; a changed count or a new function breaks the theorem and the strfn ops then search for a failing input",
         "panic-freedom of the byte-level decoders of third-party crates (rpki-rs, bcder, serde/serde_json, quick-xml) is SAMPLED by the "
         "mutation stream, NOT proved; they enter the pipeline theorems as the parameter `decode`",
         "the harness is a debug build: arithmetic overflow panics; a release build wraps instead (no overflow-checks in "
@@ -74,6 +104,14 @@ MANIFEST = {
             "also exercised through the real daemon (stream http, profile pathfuzz: boundary values for every parameter segment of "
             "the generated route table, mutated JSON bodies; oracle no_panic = answered, daemon still healthy, no panic recorded by "
             "the process-wide panic hook): F-C16-3 (history rows -> Vec::with_capacity capacity overflow), F-C16-4 (rpki-rs "
-            "Base64::to_bytes unwrap on invalid base64 in id_cert fields) and the path-segment route to F-C16-2 were found there.",
+            "Base64::to_bytes unwrap on invalid base64 in id_cert fields) and the path-segment route to F-C16-2 were found there. "
+            "Krill's own code is covered systematically by a panic-site census: translator panic_sites counts every index/slice, "
+            "unwrap, expect, panic-family macro, integer division, shift and process exit per function (290 sites in 206 functions "
+            "outside tests/CLI/upgrades); Props/C16Src.all_panic_sites_reviewed ties each row to a hand-classified review row with "
+            "the same count (startup / internal / guarded / modelled / unreachable_from_client / finding), so a new site cannot "
+            "appear unreviewed; the `strfn` ops of the pure stream search krill's own string helpers for a failing input; "
+            "seems_global_uri (authorities of a client CSR's SIA URIs) has a checked model with seems_global_uri_total. The census "
+            "audit found F-C16-5 / F-C16-6 (a handle with a backslash formatted into a URI and unwrapped; replayed on the real "
+            "daemon, reported).",
     "technique": "Lean 4 proof (checked-arithmetic model, totality theorems) + exhaustive finite-domain correspondence + mutation sampling of decoders",
 }
